@@ -15,7 +15,7 @@ import z3
 
 from . import frontend
 from . import spec as specmod
-from .values import (SV, SInt, SReal, SBool, SStr, SBits, SAny, SChoice, SSeq,
+from .values import (PList, SV, SInt, SReal, SBool, SStr, SBits, SAny, SChoice, SSeq,
                      SObj, SDict, Closure, BoundMethod, SuperProxy, ExcVal,
                      fresh_name, lift, simplify_concrete)
 
@@ -392,7 +392,9 @@ class Interp:
 
   # -- helpers ----------------------------------------------------------------
   def resolve(self, v):
-    """Resolves lazy choices."""
+    """Resolves lazy choices and promoted lists."""
+    if isinstance(v, PList):
+      return v.sym if v.sym is not None else v
     while isinstance(v, SChoice):
       if v.resolved is None:
         c = self.path.decide(len(v.alts), 'choice:' + v.name)
@@ -1118,7 +1120,7 @@ class Interp:
     return tuple(out)
 
   def ex_List(self, e, frame):
-    return list(self.ex_Tuple(e, frame))
+    return PList(self.ex_Tuple(e, frame))
 
   def ex_Set(self, e, frame):
     vals = [self.eval(x, frame) for x in e.elts]
@@ -1744,7 +1746,8 @@ class Interp:
           break
         if '__setattr__' in klass.__dict__ and not obj.ghost.get('raw_setattr'):
           fn = klass.__dict__['__setattr__']
-          if isinstance(fn, types.FunctionType):
+          if isinstance(fn, types.FunctionType) and (
+              func_key(fn) in self.policy.inline or fn.__module__ in self.policy.inline_modules):
             return self.call(BoundMethod(obj, fn, klass), [name, v], {}, frame)
           break
       self.path.event('write', f'{obj.cls.__name__}.{name}', (obj, name, v))
@@ -1799,7 +1802,7 @@ class Interp:
   # -- comprehensions ---------------------------------------------------------------
   def ex_ListComp(self, e, frame):
     try:
-      return self._comp(e, frame, lambda f: self.eval(e.elt, f))
+      return PList(self._comp(e, frame, lambda f: self.eval(e.elt, f)))
     except _MapComp as mc:
       return self._map_comp(e, mc.it, mc.gen, frame)
 
